@@ -180,6 +180,8 @@ def judge(ctx, FST, root, lines_before, rect, text, domain, hist, MOD):
     elif kind == 'refused-valid':
         if (old_tree is not None and stmt_containers(ref) != stmt_containers(old_tree)) or nl:
             key = 'stmt-count-change'
+        elif ':' in text or ':' in removed:
+            key = 'block-header-colon-edit-refused-although-whole-valid'   # the header (or the statement) is re-parsed alone; where its ':' is decides what belongs to it
     msg = (f'put_src({text!r}, {ln}, {col}, {end_ln}, {end_col}) [{domain}] on {short(src, 300)!r}: {kind}; '
            f'{"raised " + type(raised).__name__ + ": " + short(str(raised), 100) if raised else "returned"}; reference new source is {"valid" if ref is not None else "INVALID"}; '
            f'src after={short(root.src, 300)!r}')
